@@ -190,6 +190,10 @@ def run(ctx):
         rcfg = fw.write_cfg(ctx.path("MC_RadixPow2Alg_%s.cfg" % nm), invariants=["PrintOK", "RoundTripOK", "ParseOK"],
                             constants={"W": w, "LogRadices": lrs, "MaxWords": mw, "MaxStr": ms})
         ctx.mc("mc-radixpow2-" + nm, "C07", "RadixPow2Alg.tla", rcfg, workers=4)
+    # length bookkeeping of the divide-and-conquer parser (power table, splits), every length up to MaxLen for two chunk sizes
+    for ch, ml in ((5, ctx.pick(700, 4000)), (8, ctx.pick(600, 3000))):
+        pcfg = fw.write_cfg(ctx.path("MC_ParseDcAlg_%d.cfg" % ch), invariants=["TableOK", "DcOK"], constants={"Chunk": ch, "MaxLen": ml})
+        ctx.mc("mc-parsedc-%d" % ch, "C07", "ParseDcAlg.tla", pcfg, workers=2)
     # spec -> impl: the partition enumerated by TLC
     radices = ctx.pick([2, 3, 7, 8, 10, 16, 29, 36], list(range(2, 37)))
     ctx.scope.update({"radices": radices, "thorough": not ctx.quick, "exact_digit_limit": 2000,
